@@ -25,7 +25,7 @@ func checkC05(c *Ctx) {
 	r.Rule("R05.3", "failures cached before release: builder error ∧ FailedUpdateTTL>-1 ⇒ ErrorsWrite(key, builder error) before the release", 2)
 	r.Rule("R05.4", "failure cache consulted before every build; a hit reaches no builder", 2)
 	r.Rule("R05.5", "disabled means disabled (no Errors access when FailedUpdateTTL<=-1); constructor creates Errors whenever enabled", 4)
-	r.Rule("R05.6", "configuration flow: Errors.TimeToLive is the configured FailedUpdateTTL (20s default) and failures are written under a private default-TTL cell, so they expire after FailedUpdateTTL", 4)
+	r.Rule("R05.6", "configuration flow: Errors.TimeToLive is the configured FailedUpdateTTL (20s default) and failures are written under a private default-TTL cell, so they expire after FailedUpdateTTL", 5)
 	r.NotDecided = []string{"wall-clock duration of failure suppression", "exact build counts under real schedules"}
 	for _, sib := range siblings {
 		fo := c.failover(sib)
@@ -36,6 +36,8 @@ func checkC05(c *Ctx) {
 		c.c05Sibling(fo)
 		c.c05Constructor(sib)
 	}
+	// the failure's own TTL cell relies on WithTTL(ctx, DefaultTTL, false) installing a fresh cell (R06.3)
+	c.borrow("C06", func() { c.c06WithTTL() }, func(o *coreObl) (string, bool) { return "R05.6", o.Rule == "R06.3" })
 }
 
 type seqEv struct {
